@@ -30,3 +30,10 @@ pub open spec fn block_step_ok(r: core::Expr, first: Expr, rest: Seq<Expr>, ty: 
         _ => r matches core::Expr::ELet { name: _, value: v, body, ty: _ } && *v == core_of(first) && *body == block_core(rest, ty),
     }
 }
+// ---- structure-preserving arms of compile_expr ----
+pub open spec fn if_ok(r: core::Expr, c: Expr, t: Expr, e: Expr, ty: Ty) -> bool {
+    r matches core::Expr::EIf { cond, then_branch, else_branch, ty: rt } && *cond == core_of(c) && *then_branch == core_of(t) && *else_branch == core_of(e) && rt == ty
+}
+pub open spec fn while_ok(r: core::Expr, c: Expr, b: Expr, ty: Ty) -> bool {
+    r matches core::Expr::EWhile { cond, body, ty: rt } && *cond == core_of(c) && *body == core_of(b) && rt == ty
+}
